@@ -311,7 +311,40 @@ def _splitter(ctx, repo, msg):
     if loop is None:
         ctx.undecided("R-MUSTPASS/splitter", construct, msg.where(ld), "no while loop", key="loop")
         return
-    idx = loop.test.left.id if isinstance(loop.test, ast.Compare) and isinstance(loop.test.left, ast.Name) else "index"
+    test_names = {n.id for n in ast.walk(loop.test) if isinstance(n, ast.Name)}
+    idx = next((x.target.id for x in walk_no_nested(loop) if isinstance(x, ast.AugAssign) and isinstance(x.target, ast.Name)
+                and x.target.id in test_names), "index")
+    # the loop must go on whenever at least one minimal (20-octet, header-only) message is still unconsumed:
+    # rewrite the test over r = len(stream) - index and normalise it with the interval algebra
+    from ..intervals import ISet, test_set, Undecidable
+    import copy as _copy
+
+    class _R(ast.NodeTransformer):
+        def visit_BinOp(self, node):
+            if isinstance(node.op, ast.Sub) and ast.unparse(node.left) == "len(stream)" and ast.unparse(node.right) == idx:
+                return ast.Name(id="__r", ctx=ast.Load())
+            return self.generic_visit(node)
+
+        def visit_Compare(self, node):
+            if len(node.ops) == 1 and ast.unparse(node.left) == idx and ast.unparse(node.comparators[0]) == "len(stream)":
+                flip = {ast.Lt: ast.Gt, ast.LtE: ast.GtE, ast.NotEq: ast.NotEq, ast.Gt: ast.Lt, ast.GtE: ast.LtE, ast.Eq: ast.Eq}
+                return ast.Compare(left=ast.Name(id="__r", ctx=ast.Load()), ops=[flip[type(node.ops[0])]()],
+                                   comparators=[ast.Constant(value=0)])
+            if len(node.ops) == 1 and ast.unparse(node.comparators[0]) == idx and ast.unparse(node.left) == "len(stream)":
+                return ast.Compare(left=ast.Name(id="__r", ctx=ast.Load()), ops=[node.ops[0]], comparators=[ast.Constant(value=0)])
+            return self.generic_visit(node)
+    rt = ast.fix_missing_locations(_R().visit(_copy.deepcopy(loop.test)))
+    try:
+        cont = test_set(repo, msg.mod, rt, "__r", ISet.full(0, 1 << 24))
+        need = ISet([(20, 1 << 24)], 0, 1 << 24)
+        missing = need.minus(cont)
+        ctx.decide(missing.empty(), "R-TABLE/splitter", construct, msg.where(loop),
+                   f"the loop continues while {cont} octets remain (covers every remainder >= 20)",
+                   f"the splitter loop `while {ast.unparse(loop.test)}` stops with {missing.min()} unconsumed octets left: a final "
+                   f"message of exactly that size (e.g. a header-only message) is silently dropped", key="loop_continues")
+    except Undecidable as e:
+        ctx.undecided("R-TABLE/splitter", construct, msg.where(loop), f"loop test not normalisable over the remaining length: {e}",
+                      key="loop_continues")
     env = {}
     for s in walk_no_nested(loop):
         if isinstance(s, ast.Assign) and len(s.targets) == 1 and isinstance(s.targets[0], ast.Name):
